@@ -44,11 +44,15 @@ TReset ==
     /\ loop' = "waitHeader" /\ cur' = 0 /\ okRecv' = TRUE /\ blobs' = 0 /\ fails' = 0
     /\ buf' = <<>> /\ delivered' = <<>> /\ sawClose' = FALSE
     /\ user' = FALSE /\ svc' = FALSE /\ cause' = "-" /\ fullAtClose' = FALSE
+    /\ relay' = "reading" /\ held' = 0 /\ subFailed' = FALSE
     /\ hist' = <<>>
     /\ owedA' = "none"
     /\ Advance
 
-THdr    == Ev.ev = "hdr" /\ next = Ev.h /\ RecvHeader /\ UNCHANGED owedA /\ Advance
+\* "hdr": the harness handed header h to the feed -- to the loop itself (Relay = FALSE) or to the
+\* relay's NextHeader (Relay = TRUE)
+THdr    == Ev.ev = "hdr" /\ next = Ev.h /\ (RecvHeader \/ GossipHeader) /\ UNCHANGED owedA /\ Advance
+TFeedErr == Ev.ev = "feederr" /\ FeedError /\ UNCHANGED owedA /\ Advance
 TAtt    == Ev.ev = "att" /\ owedA = "none" /\ cur = Ev.h /\ Attempt(Ev.ok) /\ UNCHANGED owedA /\ Advance
 \* the answer was handed to the stub; when getAll returns to the loop is not observed
 TAttNW  == /\ Ev.ev = "attnw" /\ owedA = "none" /\ loop = "retrieving" /\ cur = Ev.h
@@ -64,13 +68,13 @@ TFeed   == Ev.ev = "feedclose" /\ CloseFeed /\ UNCHANGED owedA /\ Advance
 Silent ==
     /\ UNCHANGED i
     /\ \/ /\ \/ RecvClosed \/ SelUserDone \/ SelSvcDone \/ CheckCtx \/ CheckOk \/ CheckOverflow
-             \/ Send \/ SendUserDone
+             \/ Send \/ SendUserDone \/ RelayStep
           /\ UNCHANGED owedA
        \/ owedA = "fail" /\ Attempt(FALSE) /\ owedA' = "none"
 
 TraceNext ==
     /\ i <= NT
-    /\ \/ TReset \/ THdr \/ TAtt \/ TAttNW \/ TRecv \/ TClosed \/ TCancel \/ TStop \/ TFeed \/ Silent
+    /\ \/ TReset \/ THdr \/ TAtt \/ TAttNW \/ TFeedErr \/ TRecv \/ TClosed \/ TCancel \/ TStop \/ TFeed \/ Silent
 
 TraceSpec == TraceInit /\ [][TraceNext]_tvars
 
